@@ -15,7 +15,7 @@ Extraction "lnc_model.ml"
   dstep drun dinit mstep minit mrun split_msg
   classify s_observe c_observe s_obs_init c_obs_init hstep hrun hinit
   tm_step tm_init get_resend get_handshake fboost32
-  Noise.kn_iter Noise.kn_of Noise.read_all Noise.writer_stream Noise.reads Noise.grpc_read Noise.buf_read
+  Noise.kn_iter Noise.kn_of Noise.read_all Noise.read_segs Noise.writer_stream Noise.reads Noise.grpc_read Noise.buf_read
   Noise.tcp_write_records Noise.grpc_write_records Noise.flush Noise.flush_all Noise.read_full Noise.seal_tags
   Sym.run Sym.mk_init Sym.mk_resp Sym.faithful Sym.term_eqb Sym.completed
   Pairing.entropy_to_words Pairing.words_to_entropy
